@@ -131,6 +131,67 @@ TABLE = [
  ("C18-cms-readfrom-eof-between-rows", "C18", "/tmp/wt2-C18", 2, ["C18", "C11"],
   "CountMinSketch.ReadFrom treats io.EOF between rows as the end of the image.",
   "a cut exactly on a row boundary (offsets 24 + r*8*columns); through TopK.ReadFrom with k = 0"),
+ # ---- batch 3 (sub-agents were told the earlier ideas and asked for something different in kind) ----
+ ("C01-redis-setbit-batches-skip-17th", "C01", "/tmp/wt3-C01", 1, ["C01"],
+  "BitSetRedis.insertMulti flushes its SETBIT pipeline in batches of 16 and advances by 17: the 17th, 34th, ... probe position is never written.",
+  "Redis backend with numHashes >= 17 (error rate <= ~1e-5 or explicit k); any element is a false negative right after its own insert"),
+ ("C01-hash-memo-keeps-callers-slice", "C01", "/tmp/wt3-C01", 2, ["C01"],
+  "BloomFilter memoises the hash pair of the last element but keeps the caller's slice, not a copy.",
+  "a caller that reuses one buffer: Insert/Lookup(buf holding x); overwrite buf with y; Insert(buf); later Lookup(y) is false"),
+ ("C03-updatestring-64-byte-buffer", "C03", "/tmp/wt3-C03", 1, ["C03"],
+  "CountMinSketch.UpdateString copies the key into a [64]byte stack buffer.",
+  "in-memory sketch, string keys longer than 64 bytes through UpdateString: counted under their prefix, Count(key) = 0"),
+ ("C03-redis-conservative-update", "C03", "/tmp/wt3-C03", 2, ["C03", "C08", "C12"],
+  "The Redis Update script increments a row's counter only when it is at or below the smallest counter seen so far in the row loop.",
+  "rows >= 2, x collides with an earlier element in a later row but not an earlier one, Update(x, c > 1): under-count"),
+ ("C06-mem-merge-aliases-registers", "C06", "/tmp/wt3-C06", 1, ["C06"],
+  "HyperLogLog.Merge into an all-zero receiver takes the argument's register slice instead of copying it.",
+  "merge into a fresh/reset sketch, then update or merge either sketch again: the change leaks into the other"),
+ ("C06-mem-count-cache-not-invalidated-by-merge", "C06", "/tmp/wt3-C06", 2, ["C06", "C05"],
+  "HyperLogLog.Count caches the harmonic sum; Update/Reset/Import/ReadFrom invalidate it, Merge does not.",
+  "Count, then Merge, then Count on the receiver: stale estimate although the registers are the union's"),
+ ("C10-redis-restore-counter-counts-holes", "C10", "/tmp/wt3-C10", 1, ["C10", "C13"],
+  "BucketRedis.restore sets the bucket counter to the number of slots restored, empty ones included.",
+  "Redis cuckoo state with a removed entry (hole), Export -> Import under new keys, then a further Insert into that bucket"),
+ ("C10-topk-export-pads-and-import-skips-empty", "C10", "/tmp/wt3-C10", 2, ["C10"],
+  "TopK.Export pads the heap with {\"\",0} up to k and Import skips entries whose value is empty.",
+  "the empty key []byte{} among the tracked top-k at Export: dropped on Import"),
+ ("C11-topk-readfrom-single-read", "C11", "/tmp/wt3-C11", 1, ["C11", "C18"],
+  "TopK.ReadFrom reads the element value with one stream.Read instead of io.ReadFull.",
+  "a stream that returns short reads (one-byte reader, small bufio, socket): truncated element, wrong count, misaligned tail"),
+ ("C11-hll-readfrom-reuses-larger-receiver", "C11", "/tmp/wt3-C11", 2, ["C11"],
+  "HyperLogLog.ReadFrom reuses the receiver's register slice when large enough, without reslicing to the stream's register count.",
+  "a receiver with more registers than the written sketch: stale tail, wrong Count and returned byte count, Equals still true"),
+ ("C13-mem-remove-strips-both-buckets", "C13", "/tmp/wt3-C13", 1, ["C13", "C02"],
+  "CuckooFilter.Remove removes from both candidate buckets (no short circuit) and decrements Length once.",
+  "the same fingerprint in both candidate buckets (more than bucketSize duplicates, or i1 == i2 with two copies)"),
+ ("C13-redis-evict-drops-carry-2", "C13", "/tmp/wt3-C13", 2, ["C13", "C02"],
+  "The Redis eviction loop no longer carries the evicted fingerprint forward (same line as C02-redis-evict-drops-carry, found independently).",
+  "a successful Redis insert whose eviction chain relocates at least two entries"),
+ ("C16-bloom-watch-exec-aborts-unretried", "C16", "/tmp/wt3-C16", 1, ["C16"],
+  "BitSetRedis.insertMulti became WATCH/EXISTS/MULTI..EXEC; an EXEC aborted by a concurrent writer is never retried and Insert ignores the error.",
+  "two clients, the second one's write between the first one's WATCH and EXEC: all bits of that insert are lost"),
+ ("C16-bucket-redis-caches-free-slots", "C16", "/tmp/wt3-C16", 2, ["C16", "C09"],
+  "BucketRedis.isFree caches the number of free slots in the handle and answers later calls locally.",
+  "two handles: A:Insert(x1), B:Insert(x2) fills the bucket, A:Insert(x3) reports success but nothing was stored"),
+ ("C17-cms-equals-allsum-fast-path", "C17", "/tmp/wt3-C17", 1, ["C17"],
+  "CountMinSketch.Equals returns true when both allSum fields are 0 (Merge never updates allSum).",
+  "a sketch filled only through Merge compared with an empty one: Equals true, Count differs"),
+ ("C17-topk-equals-rate-tolerance", "C17", "/tmp/wt3-C17", 2, ["C17"],
+  "TopK/TopKRedis.Equals compare errorRate and accuracy up to 1e-9.",
+  "two Top-Ks whose rates differ by <= 1e-9 (same sketch shape, same heaps): Equals true, parameters differ"),
+ ("C04-topk-insert-zero-copy-string", "C04", "/tmp/wt3-C04", 1, ["C04"],
+  "TopK.Insert builds the element string without copying (unsafe): heap entries alias the caller's slice.",
+  "a caller that reuses or overwrites its key buffer after Insert (bufio.Scanner.Bytes pattern)"),
+ ("C04-topk-fix-skips-single-child-node", "C04", "/tmp/wt3-C04", 2, ["C04"],
+  "TopK.Insert updates a tracked element in place and calls heap.Fix only if 2*index+2 < len(heap): the node with a single left child is skipped.",
+  "an even number of tracked entries and a re-insert that lifts the entry at position len/2-1 above its child at len-1"),
+ ("C19-cms-positions-memo-ignores-columns", "C19", "/tmp/wt3-C19", 1, ["C19", "C03", "C08"],
+  "getPositions caches the last element's positions in package-level variables keyed by bytes and row count, not column count.",
+  "two sketches with the same rows and different widths get the same element in adjacent calls: the second uses the first one's columns"),
+ ("C19-topk-redis-import-reuses-arg-slice", "C19", "/tmp/wt3-C19", 2, ["C19", "C10"],
+  "TopKRedis.importHeap reuses a package-level argument slice at full length.",
+  "a smaller heap imported after a larger one was imported by any Top-K in the process: leftover members are ZADDed into the copy"),
 ]
 
 
